@@ -21,6 +21,8 @@ import sys
 import time
 import traceback
 
+from crosshair.util import CrossHairInternal
+
 
 def load(modname, fname):
     mod = importlib.import_module(modname)
@@ -73,7 +75,13 @@ def run_crosshair(mod, fn, timeout, twin):
     for p in posts:
         chk = ConditionCheckable(ctxfn, replace(full), replace(conditions, post=[p]))
         chk.options.stats = stats
-        msgs = chk.analyze()
+        try:
+            msgs = chk.analyze()
+        except CrossHairInternal as e:
+            # the engine itself gave up on this obligation (an internal consistency check of CrossHair failed):
+            # nothing is decided
+            return {'status': 'inconclusive', 'paths': int(stats.get('num_paths', 0)),
+                    'message': 'CrossHair internal error: %s' % str(e)[:200]}
         results.extend(msgs)
     wall = time.time() - t0
     cpu = time.process_time() - c0
